@@ -9,7 +9,8 @@ package webrtc
 // Oracle over the whole history:
 //   - per transceiver object (of either peer): once Mid() is non-empty it never changes, and no
 //     two transceiver objects of one PeerConnection ever hold the same mid;
-//   - a table mid -> index built from every description either peer generated: a later
+//   - a table mid -> index built from every description either peer generated (including
+//     offers that were superseded or rolled back and never answered): a later
 //     description keeps every mid it contains at the index the table has for it; a mid that is
 //     new in a description sits after every index used so far (new sections are appended);
 //   - per peer: the mid of a transceiver object that first shows a mid after some description
@@ -32,11 +33,20 @@ type vfC09Monitor struct {
 	midObj                    [2]map[string]*RTPTransceiver
 	history                   []string
 	rejected, rejectedNotLast int
+	discarded                 int
+	// a mid that so far only appeared in a never-answered offer of one peer (value: that peer),
+	// the mids each peer has seen in descriptions it generated or was given, and the mids the
+	// other peer then allocated independently (input class of the class key)
+	onlyUnanswered map[string]int
+	seenBy         [2]map[string]bool
+	collided       map[string]bool
+	descCollided   bool // the description being inspected contains such a mid (it shifts its neighbours too)
 }
 
 func vfC09NewMonitor() *vfC09Monitor {
-	m := &vfC09Monitor{index: map[string]int{}, maxIndex: -1}
+	m := &vfC09Monitor{index: map[string]int{}, maxIndex: -1, onlyUnanswered: map[string]int{}, collided: map[string]bool{}}
 	for i := range m.objMid {
+		m.seenBy[i] = map[string]bool{}
 		m.objMid[i] = map[*RTPTransceiver]string{}
 		m.midObj[i] = map[string]*RTPTransceiver{}
 	}
@@ -45,6 +55,16 @@ func vfC09NewMonitor() *vfC09Monitor {
 
 func (m *vfC09Monitor) add(class, format string, a ...any) {
 	m.all = append(m.all, vfFamBFinding{class, fmt.Sprintf(format, a...)})
+}
+
+// addMid files a finding about one mid; when that mid was first handed out in an offer that
+// was never answered and the other peer, who never saw it, allocated the same mid on its own,
+// the finding belongs to that input class.
+func (m *vfC09Monitor) addMid(mid, class, format string, a ...any) {
+	if m.collided[mid] || m.descCollided {
+		class = "C09/mid-collision-after-unanswered-offer"
+	}
+	m.add(class, format, a...)
 }
 
 func (m *vfC09Monitor) onDesc(ev vfFamBPEvent) {
@@ -62,21 +82,51 @@ func (m *vfC09Monitor) onDesc(ev vfFamBPEvent) {
 			}
 		}
 	}
-	who := fmt.Sprintf("round %d peer %d %s mids=%q", ev.Round, ev.Peer, ev.Kind, mids)
+	kind := ev.Kind
+	if ev.Discarded {
+		kind = "offer(never answered)"
+		m.discarded++
+	}
+	who := fmt.Sprintf("round %d peer %d %s mids=%q", ev.Round, ev.Peer, kind, mids)
 	m.history = append(m.history, who)
 	prevMax := m.maxIndex
+	for _, mid := range mids {
+		if mid == "" {
+			continue
+		}
+		if owner, ok := m.onlyUnanswered[mid]; ok {
+			switch {
+			case owner != ev.Peer && !m.seenBy[ev.Peer][mid]:
+				m.collided[mid] = true
+				delete(m.onlyUnanswered, mid)
+			case owner == ev.Peer && !ev.Discarded:
+				delete(m.onlyUnanswered, mid)
+			}
+		} else if _, known := m.index[mid]; !known && ev.Discarded {
+			m.onlyUnanswered[mid] = ev.Peer
+		}
+		m.seenBy[ev.Peer][mid] = true
+		if !ev.Discarded {
+			m.seenBy[1-ev.Peer][mid] = true
+		}
+	}
+	m.descCollided = false
+	for _, mid := range mids {
+		m.descCollided = m.descCollided || m.collided[mid]
+	}
+	defer func() { m.descCollided = false }()
 	for i, mid := range mids {
 		if mid == "" {
 			continue // a section without mid is C06's finding
 		}
 		if at, ok := m.index[mid]; ok {
 			if at != i {
-				m.add("C09/position-changed", "%s: mid %q is at index %d, earlier descriptions had it at index %d; history: %q", who, mid, i, at, m.history)
+				m.addMid(mid, "C09/position-changed", "%s: mid %q is at index %d, earlier descriptions had it at index %d; history: %q", who, mid, i, at, m.history)
 			}
 			continue
 		}
 		if m.descs > 0 && i <= prevMax {
-			m.add("C09/new-section-not-appended", "%s: new mid %q sits at index %d although indices up to %d were already used; history: %q", who, mid, i, prevMax, m.history)
+			m.addMid(mid, "C09/new-section-not-appended", "%s: new mid %q sits at index %d although indices up to %d were already used; history: %q", who, mid, i, prevMax, m.history)
 		}
 		m.index[mid] = i
 		if i > m.maxIndex {
@@ -99,7 +149,7 @@ func (m *vfC09Monitor) onStep(step int, pcs [2]*PeerConnection) {
 				continue
 			}
 			if other, ok := m.midObj[p][mid]; ok && other != t {
-				m.add("C09/mid-reused", "after step %d: two transceivers of peer %d hold mid %q; history: %q", step, p, mid, m.history)
+				m.addMid(mid, "C09/mid-reused", "after step %d: two transceivers of peer %d hold mid %q; history: %q", step, p, mid, m.history)
 			}
 			m.midObj[p][mid] = t
 		}
@@ -116,7 +166,7 @@ func TestVerif_C09_Pair(t *testing.T) {
 			"sections without a=mid are C06's finding and are skipped here",
 		},
 	}, func(v *vfT) vfFamBPCase {
-		return vfFamBGenPair(v.R, 3, 10, true, rapid.IntRange(0, 1).Draw(v.R, "asymmetricPeers") == 0)
+		return vfFamBGenPair(v.R, 3, 10, true, rapid.IntRange(0, 1).Draw(v.R, "asymmetricPeers") == 0, true)
 	}, func(v *vfT, c vfFamBPCase) {
 		m := vfC09NewMonitor()
 		st := vfFamBRunPair(v, c, m.onDesc, m.onStep, nil)
@@ -126,6 +176,12 @@ func TestVerif_C09_Pair(t *testing.T) {
 		}
 		if st.AddAfterRound {
 			v.Label("addition-after-first-round")
+		}
+		if m.discarded > 0 {
+			v.Label("history-with-unanswered-offer")
+		}
+		if len(m.collided) > 0 {
+			v.Label("history-with-mid-allocated-independently-by-both-peers")
 		}
 		if m.rejected > 0 {
 			v.Label("history-with-rejected-media-section")
